@@ -178,6 +178,21 @@ Proof.
   rewrite (eq_spec _ _ (severity_wf p H) LIKELY_SAFE_wf), LIKELY_SAFE_rank. reflexivity.
 Qed.
 
+Lemma face_bool_spec p : Forall wf p -> face_bool p = (rank_of p =? 0).
+Proof.
+  intros H. apply Bool.eq_true_iff_eq. unfold face_bool, rank_of.
+  rewrite forallb_forall, Nat.eqb_eq. pose proof H as HF. rewrite Forall_forall in HF. split.
+  - intros A. assert (severity p = LIKELY_SAFE) as ->; [|apply LIKELY_SAFE_rank].
+    apply severity_safe_iff; [exact H|]. intros x Hx. specialize (A x Hx).
+    rewrite (eq_spec _ _ (HF x Hx) LIKELY_SAFE_wf), LIKELY_SAFE_rank in A. apply Nat.eqb_eq in A.
+    apply rank_inj; [apply HF; exact Hx | exact LIKELY_SAFE_wf | rewrite LIKELY_SAFE_rank; exact A].
+  - intros E x Hx.
+    assert (severity p = LIKELY_SAFE) as ES
+      by (apply rank_inj; [apply severity_wf; exact H | exact LIKELY_SAFE_wf | rewrite LIKELY_SAFE_rank; exact E]).
+    rewrite (proj1 (severity_safe_iff p H) ES x Hx).
+    rewrite (eq_spec _ _ LIKELY_SAFE_wf LIKELY_SAFE_wf). apply Nat.eqb_refl.
+Qed.
+
 Lemma face_loader_spec thr p :
   wf thr -> Forall wf p -> face_loader_raises thr p = (doc_rank thr <? rank_of p).
 Proof.
